@@ -1020,10 +1020,23 @@ def gen_pp_cases(rng, cid0, thorough):
     for j, (steps, lab) in enumerate(specs):
         c = gen_case(rng, cid0 + j)
         # 16 channels: the spatial filters (car / kfilt) need more traces than their filter padding
-        while not any(c["to"] < sp[0] < c["ns"] - (c["L"] - c["to"]) for sp in c["spikes"]) or c["nc"] != 16:
+        # ... and every snippet must be longer than the temporal filters' padding (sosfiltfilt: 12 samples;
+        # with the default window, 42 samples before the trough, that is always the case)
+        def snippets_ok(c, size):
+            n = -(-c["ns"] // size)
+            for i in range(n):
+                a0 = max(0, i * size - (c["to"] if i else 0))
+                b0 = min(c["ns"], (c["ns"] if i == n - 1 else (i + 1) * size) + c["L"] - c["to"])
+                if b0 - a0 < 40:
+                    return False
+            return size >= max(1, c["to"])
+        good = []
+        while not good:
             c = gen_case(rng, cid0 + j)
+            if c["nc"] == 16 and any(c["to"] < sp[0] < c["ns"] - (c["L"] - c["to"]) for sp in c["spikes"]):
+                good = [z for z in c["sizes"] if snippets_ok(c, z)]
         c["steps"], c["float_seed"], c["shift"] = steps, rng.randrange(1, 10 ** 6), True
-        c["sizes"] = [max(c["sizes"][0], 60, c["to"])]
+        c["sizes"] = good[:1]
         if lab == "given":
             c["chan_labels"] = [1 if rng.random() < 0.2 else 0 for _ in range(c["nc"])]
             c["chan_labels"][rng.randrange(c["nc"])] = 0
